@@ -33,11 +33,14 @@ LEVEL = {
     "C04": "Theorem C04_decoder_refines_spec: for ALL row sequences (hence every legal producer, not the outputs of some encoder) "
            "that the reference decoder Spec.runRows accepts with denotation evs, the model of pyjelly's Decoder set up from the "
            "first options row delivers exactly evs in order without raising (simulation relation = equal tables/delta bases/"
-           "repeated terms/open graph; induction over rows and over nested terms). Row level; framing is C07, non-canonical "
-           "protobuf encodings are upb behaviour covered by the wire-parse model + correspondence only.",
+           "repeated terms/open graph; induction over rows and over nested terms). C04_bytes_delimited / C04_bytes_single lift it to "
+           "BYTES for the canonical protobuf encoding of any frame list (empty frames anywhere, any cuts): parseFlat of the bytes "
+           "= the denotation. Non-canonical protobuf encodings are upb behaviour covered by the wire-parse model + "
+           "correspondence only.",
     "C16": "Theorems C16_rejects_at_offending_row (every catalogued violation after a valid prefix makes the decoder raise AT that "
            "row, having delivered exactly the denotation of the valid prefix) and C16_bad_header_rejected (missing options row, "
-           "unsupported physical type, version > 2, names < 8, tables > 4096 never yield an event). Two classes were genuine "
+           "unsupported physical type, version > 2, names < 8, tables > 4096 never yield an event), C16_frames (the same through "
+           "any frame cuts). Two classes were genuine "
            "defects, repaired by fix: commits (triple outside a graph; datatype reference with a disabled table).",
     "C06": "Theorems (for EVERY stream — any class, logical type, delimited flag, inferred or explicit flow, frame size — and every "
            "input): C06_nothing_left_in_flow (a normal return of stream_frames leaves the flow empty), "
@@ -47,8 +50,8 @@ LEVEL = {
            "C01/C03's theorem; here it is the oracle. The full statement was false before the fix: commit (final flush).",
     "C11": "Write side: C11_trace_faithful (the trace model replays the same run as the serializer model), "
            "C11_pending_below_frame_size, C11_no_lookahead for Triple/QuadStream with a bounded flow (induction over the input). "
-           "Parse side: C10_events_prefix at frame boundaries (what is yielded before byte k+1 is requested is what the cut "
-           "stream yields). Known findings (not repaired): GraphStream fed from a quad generator reads ahead a whole graph run "
+           "Parse side: C11_parse_live / C10_complete_frames_delivered (what the parser yields from the bytes that have arrived is a "
+           "prefix of what it yields from any continuation: the statements of delivered frames never wait for later bytes). Known findings (not repaired): GraphStream fed from a quad generator reads ahead a whole graph run "
            "(C11-graphs-lookahead); a BufferedReader over a non-seekable source is wrapped in a second BufferedReader and "
            "over-reads (C11-double-buffer). The frame_size-ignored defect was repaired (fix: commit). Partial: real blocking.",
     "C12": "In the model serialization is a function, so determinism is definitional; C12_isolation proves that two independent "
